@@ -1164,6 +1164,24 @@ func (g *G) Stmt() Out {
 					g.retired = append(g.retired[:i:i], g.retired[i+1:]...)
 					g.Reused++
 					g.Kinds["let-reused-name"]++
+				} else if k >= 2 && g.chance("shadow", 3) {
+					// a name that a let/const of an enclosing, still open scope declares: the inner declaration shadows it
+					var outer []string
+					for _, sc := range g.lexScopes[:k-1] {
+						for _, x := range sc {
+							free := true
+							for _, y := range g.lexScopes[k-1] {
+								free = free && x != y
+							}
+							if free {
+								outer = append(outer, x)
+							}
+						}
+					}
+					if len(outer) > 0 {
+						n = outer[g.intn("shadowed", len(outer))]
+						g.Kinds["let-shadows-outer"]++
+					}
 				} else if g.chance("plainlet", 2) {
 					n = g.newName()
 				}
